@@ -184,14 +184,31 @@ def make_engine(fl, rng, tb, d, mode, flags, force):
     shape_names = sorted(tb["shapes"])
     mono = ["Arc", "Concave", "Ramp", "Sigmoid", "SShape", "ZShape"]
     n_in = rng.randint(1, 3)
+    in_names = [g.ident() for _ in range(n_in)]
+    engine_terms: dict[str, list[str]] = {}        # input variable -> its terms that need the engine reference
     for i in range(n_in):
         lo, hi = g.range_()
-        iv = fl.InputVariable(g.ident(), g.description(), enabled=rng.random() > 0.15, minimum=lo, maximum=hi, lock_range=rng.random() < 0.3)
+        iv = fl.InputVariable(in_names[i], g.description(), enabled=rng.random() > 0.15, minimum=lo, maximum=hi, lock_range=rng.random() < 0.3)
         for j in range(rng.choice([0, 1, 2, 2, 3, 4])):
             c = force["terms"].pop() if force.get("terms") and force["terms"][-1] not in ("Constant", "Linear", "Function") else rng.choice(shape_names + ["Discrete"])
             if c == "Constant":
                 c = "Triangle"
             iv.terms.append(g.discrete(fl, g.ident()) if c == "Discrete" else g.shape(fl, c, g.ident()))
+        # Function / Linear terms in an INPUT variable: they read the engine's input values (the variable itself included),
+        # so the importer has to hand them the engine reference exactly as it does for output variables
+        if rng.random() < 0.3:
+            other = rng.choice(in_names)
+            k = abs(g.num(0.1, 2.0))
+            form = rng.choice([f"min(1.0, max(0.0, x * {other}))", f"min(1.0, max(0.0, {in_names[i]} * {k:.{d}f}))", f"max(0.0, min(1.0, {other} + {in_names[i]}))",
+                               f"min(1.0, abs({other}) / ({k:.{d}f} + abs({other})))", f"gt({other}, {k:.{d}f})"])
+            t = fl.Function(g.ident(), form, e)
+            t.load()
+            iv.terms.append(t)
+            engine_terms.setdefault(iv.name, []).append(t.name)
+        if rng.random() < 0.2:
+            t = fl.Linear(g.ident(), [g.num(-0.2, 0.2) for _ in range(rng.choice([n_in, n_in + 1]))], e)
+            iv.terms.append(t)
+            engine_terms.setdefault(iv.name, []).append(t.name)
         e.input_variables.append(iv)
     n_out = rng.randint(1, 2)
     for i in range(n_out):
@@ -266,7 +283,8 @@ def make_engine(fl, rng, tb, d, mode, flags, force):
                     if rng.random() < 0.05:
                         props.append(" ".join([v.name, "is"] + hs + ["any"]))
                     else:
-                        props.append(" ".join([v.name, "is"] + hs + [rng.choice(v.terms).name]))
+                        tn = rng.choice(engine_terms[v.name]) if v.name in engine_terms and rng.random() < 0.6 else rng.choice(v.terms).name
+                        props.append(" ".join([v.name, "is"] + hs + [tn]))
                 ante = props[0]
                 for p in props[1:]:
                     ante += f" {rng.choice(['and', 'or'])} {p}"
@@ -934,9 +952,22 @@ def check_engine(fl, rng, verdict, tb, e, d, meta, stats, cases, index):
                     stats["original_raises_reimport_computes"] = stats.get("original_raises_reimport_computes", 0) + 1
                 if not same_outcome(oa, ob):
                     sig = "fll:rule-enabled-lost" if has_disabled_rule else ("fll:function-variables-lost" if fvars else "fll:outputs-differ")
-                    violation(sig, f"representable engine and its re-import compute different outputs (decimals={d}, {meta}): {str(oa)[:120]} vs {str(ob)[:120]}", {"rows": rows})
+                    k = next(k for k, (x, y) in enumerate(zip(oa, ob)) if not (x[0] == "err" or x == y))
+                    where = "batch of all rows" if k == 0 else "row " + str(rows[k - 1])
+                    violation(sig, f"representable engine and its re-import compute different outputs on {where} (decimals={d}, {meta}): {str(oa[k])[:100]} vs {str(ob[k])[:100]}", {"rows": rows, "first_differing": where})
                 if any(o[0] == "ok" for o in oa):
                     stats["processed_ok"] += 1
+            else:
+                # whatever the rounding does to the values, an input on which the original computes outputs must not make
+                # the re-imported engine raise (e.g. a term that lost its reference to the engine)
+                rows = input_rows(e, rng)
+                oa, ob = outcome(e, rows), outcome(e2, rows)
+                stats["free_engines_processed"] = stats.get("free_engines_processed", 0) + 1
+                bad = [(k, x, y) for k, (x, y) in enumerate(zip(oa, ob)) if x[0] == "ok" and y[0] == "err"]
+                if bad:
+                    k, x, y = bad[0]
+                    sig = "fll:function-variables-lost" if fvars else "fll:reimport-raises"
+                    violation(sig, f"the original engine computes outputs, the re-imported engine raises {y[1]} ({'batch of all rows' if k == 0 else 'row ' + str(rows[k - 1])}; decimals={d}, {meta})", {"rows": rows})
         # correspondence cases: the export itself, then variants of the text
         if ascii_ok(t1):
             cases.append(case_literal(fl, d, tb, e, t1, expected_lit, e2))
@@ -1068,6 +1099,7 @@ def run(ctx, build, verdict, ev):
                          "model_cases": len(cases), "violations_by_signature": stats["violations"],
                          "rows_where_the_original_raises_but_the_reimport_computes (float vs numpy.float64 parameters)": stats.get("original_raises_reimport_computes", 0),
                          "rejection_variants_accepted_by_the_importer": stats.get("variant_unexpectedly_accepted", 0),
+                         "free_engines_processed (original ok => re-import must not raise)": stats.get("free_engines_processed", 0),
                          "correspondence_only_probes (height attribute set on Constant/Linear/Function)": stats.get("correspondence_only_probes", 0),
                          "probe_outcomes": stats.get("probe_outcomes", {}),
                          "component_configure_checks (configure(parameters()) on an object with stale state)": dict(sorted(stats["component_checks"].items()))}
